@@ -742,9 +742,9 @@ Step ==
                /\ UNCHANGED <<cur, nj, memo, ph, hk>>
        [] e.ev = "sys" ->
             (* History.tla: no action touches the environment; Format.tla: exactly one formatter process per call when asked *)
-            LET ok == /\ e.writes = << >> /\ e.nets = << >>
+            LET ok == /\ e.writes = << >> /\ e.nets = << >> /\ e.reads = << >>
                       /\ (IF e.rustfmt THEN Len(e.execs) = e.n_calls /\ (\A i \in DOMAIN e.execs : e.execs[i] = "rustfmt") ELSE e.execs = << >>)
-            IN /\ (IF ok THEN TRUE ELSE PrintT("VERDICT " \o ToJson([ prop |-> Enforce, id |-> e.id, family |-> "syscalls", msg |-> "the calling process touched its environment: spawned " \o ToJson(e.execs) \o ", opened for writing " \o ToJson(e.writes) \o ", network " \o ToJson(e.nets) ])))
+            IN /\ (IF ok THEN TRUE ELSE PrintT("VERDICT " \o ToJson([ prop |-> Enforce, id |-> e.id, family |-> "syscalls", msg |-> "the calling process touched its environment: spawned " \o ToJson(e.execs) \o ", opened for writing " \o ToJson(e.writes) \o ", read " \o ToJson(e.reads) \o ", network " \o ToJson(e.nets) ])))
                /\ nbad' = nbad + (IF ok THEN 0 ELSE 1) /\ TLCSet(2, nbad')
                /\ UNCHANGED <<cur, nj, memo, ph, hk>>
        [] e.ev = "phase" -> ph' = (IF e.name \in Range(PhaseSeq) THEN Append(ph, e.name) ELSE ph) /\ UNCHANGED <<cur, nj, nbad, memo, hk>>
